@@ -1,5 +1,6 @@
 //! C19: every Address operation x boundary-biased operand pairs x all 64 alignments.
-//! case:  mode op a b [c]    obs: kind(0 None,1 value,2 panic,9 the two address types differ) value flag
+//! case:  mode op a b [c]    obs: kind(0 None,1 value,2 panic,9 the two address types differ,
+//!        a the trait route and the method-call route on the concrete type differ) value flag
 //! ops 0-14: arithmetic / masks / cmp / ==;  15 partial_cmp, 16 <, 17 <=, 18 >, 19 >=, 20 !=, 21 max, 22 min,
 //! 23 clamp(b, c), 24 == with the operands exchanged.  EVERY op runs on GuestAddress and on MemoryRegionAddress.
 use crate::tok::n;
@@ -37,8 +38,20 @@ fn exec(case: &[Tok]) -> Vec<Tok> {
     let c = if case.len() > 4 { case[4].u() } else { 0 };
     // both address types are instantiations of the same macro and carry the same derives: run both,
     // they must agree (kind 9 otherwise, which neither the model nor the checker accepts)
+    // two ROUTES per type: the generic instance can only resolve a method call to the TRAIT method
+    // (`<T as Address>::op`), the concrete instance is method-call syntax on the concrete type as a user writes it -
+    // an inherent method of the same name shadows the trait method there.  The two answers must be identical
+    // (kind 0xa otherwise: the trait route's value, the concrete route's value).
     let g = exec_one::<GuestAddress>(op, a, b, c);
+    let gc = exec_one_guest(op, a, b, c);
+    if g != gc {
+        return vec![n(10u8), n(g[1].u()), n(gc[1].u())];
+    }
     let r = exec_one::<MemoryRegionAddress>(op, a, b, c);
+    let rc = exec_one_region(op, a, b, c);
+    if r != rc {
+        return vec![n(10u8), n(r[1].u()), n(rc[1].u())];
+    }
     if g != r {
         // kind 9; the value GuestAddress gave, the value MemoryRegionAddress gave (for the reader of a replay)
         return vec![n(9u8), n(g[1].u()), n(r[1].u())];
@@ -46,50 +59,58 @@ fn exec(case: &[Tok]) -> Vec<Tok> {
     g
 }
 
-#[allow(clippy::eq_op, clippy::nonminimal_bool)]
-fn exec_one<A: Address<V = u64> + std::panic::RefUnwindSafe>(op: u64, a: u64, b: u64, c: u64) -> Vec<Tok> {
-    let x = A::new(a);
-    let y = A::new(b);
-    match op {
-        0 => opt(x.checked_add(b).map(|v| v.raw_value())),
-        1 => opt(x.checked_sub(b).map(|v| v.raw_value())),
-        2 => opt(x.checked_offset_from(A::new(b))),
-        3 => {
-            let (v, f) = x.overflowing_add(b);
-            vec![n(1u8), n(v.raw_value()), Tok::b(f)]
+// the body of exec_one, instantiated generically (trait route) and for the two concrete types (method-call route)
+macro_rules! def_exec_one {
+    ($name:ident, [$($g:tt)*], $A:ty) => {
+        #[allow(clippy::eq_op, clippy::nonminimal_bool)]
+        fn $name<$($g)*>(op: u64, a: u64, b: u64, c: u64) -> Vec<Tok> {
+            let x = <$A>::new(a);
+            let y = <$A>::new(b);
+            match op {
+                0 => opt(x.checked_add(b).map(|v| v.raw_value())),
+                1 => opt(x.checked_sub(b).map(|v| v.raw_value())),
+                2 => opt(x.checked_offset_from(<$A>::new(b))),
+                3 => {
+                    let (v, f) = x.overflowing_add(b);
+                    vec![n(1u8), n(v.raw_value()), Tok::b(f)]
+                }
+                4 => {
+                    let (v, f) = x.overflowing_sub(b);
+                    vec![n(1u8), n(v.raw_value()), Tok::b(f)]
+                }
+                5 => match util::catch(|| x.checked_align_up(b).map(|v| v.raw_value())) {
+                    Some(o) => opt(o),
+                    None => vec![n(2u8), n(0u8), n(0u8)],
+                },
+                6 => val(x.mask(b)),
+                7 => val((x & b).raw_value()),
+                8 => val((x | b).raw_value()),
+                9 => val(ord(x.cmp(&y))),
+                10 => val((x == <$A>::new(b)) as u64),
+                11 => pan(util::catch(|| x.unchecked_add(b).raw_value())),
+                12 => pan(util::catch(|| x.unchecked_sub(b).raw_value())),
+                13 => pan(util::catch(|| x.unchecked_offset_from(<$A>::new(b)))),
+                14 => pan(util::catch(|| x.unchecked_align_up(b).raw_value())),
+                // the comparison surface callers actually write: operators (PartialOrd / PartialEq provided methods)
+                // and the Ord provided methods
+                15 => opt(x.partial_cmp(&y).map(ord)),
+                16 => val((x < y) as u64),
+                17 => val((x <= y) as u64),
+                18 => val((x > y) as u64),
+                19 => val((x >= y) as u64),
+                20 => val((x != y) as u64),
+                21 => val(x.max(y).raw_value()),
+                22 => val(x.min(y).raw_value()),
+                23 => pan(util::catch(|| x.clamp(y, <$A>::new(c)).raw_value())),
+                24 => val((y == x) as u64),
+                _ => panic!("bad op"),
+            }
         }
-        4 => {
-            let (v, f) = x.overflowing_sub(b);
-            vec![n(1u8), n(v.raw_value()), Tok::b(f)]
-        }
-        5 => match util::catch(|| x.checked_align_up(b).map(|v| v.raw_value())) {
-            Some(o) => opt(o),
-            None => vec![n(2u8), n(0u8), n(0u8)],
-        },
-        6 => val(x.mask(b)),
-        7 => val((x & b).raw_value()),
-        8 => val((x | b).raw_value()),
-        9 => val(ord(x.cmp(&y))),
-        10 => val((x == A::new(b)) as u64),
-        11 => pan(util::catch(|| x.unchecked_add(b).raw_value())),
-        12 => pan(util::catch(|| x.unchecked_sub(b).raw_value())),
-        13 => pan(util::catch(|| x.unchecked_offset_from(A::new(b)))),
-        14 => pan(util::catch(|| x.unchecked_align_up(b).raw_value())),
-        // the comparison surface callers actually write: operators (PartialOrd / PartialEq provided methods)
-        // and the Ord provided methods
-        15 => opt(x.partial_cmp(&y).map(ord)),
-        16 => val((x < y) as u64),
-        17 => val((x <= y) as u64),
-        18 => val((x > y) as u64),
-        19 => val((x >= y) as u64),
-        20 => val((x != y) as u64),
-        21 => val(x.max(y).raw_value()),
-        22 => val(x.min(y).raw_value()),
-        23 => pan(util::catch(|| x.clamp(y, A::new(c)).raw_value())),
-        24 => val((y == x) as u64),
-        _ => panic!("bad op"),
-    }
+    };
 }
+def_exec_one!(exec_one, [A: Address<V = u64> + std::panic::RefUnwindSafe], A);
+def_exec_one!(exec_one_guest, [], GuestAddress);
+def_exec_one!(exec_one_region, [], MemoryRegionAddress);
 
 fn gen(rng: &mut Rng, tier: Tier, emit: &mut dyn FnMut(Vec<Tok>)) {
     let mode = crate::build_mode();
